@@ -1,8 +1,8 @@
 SPECIFICATION Spec
 CONSTANTS MaxLen = 3
-  Sizes = {64, 8272}
-  Pkts <- LinkPkts
-  Filters <- LinkFilters
-  CutAll = TRUE
+  Sizes = {64, 80}
+  Pkts <- FeePkts
+  Filters <- FeeFilters
+  CutAll = FALSE
 INVARIANTS ChainExact PrefixKept Emit
 CHECK_DEADLOCK FALSE
